@@ -10,7 +10,8 @@ MODEL = "clientreq"
 MODULE = "Model.ClientReq"
 THEOREMS = ["C11_timer_at_issue", "C11_timer_released", "C11_bound", "C11_bound_any", "C11_timer_registered", "C11_timer_never_rearmed", "C11_reply_first", "C11_issue_to_resolution", "C11_late_reply_inert",
             "C11_same_id_refused", "C11_timed_out_id_reserved", "C11_timer_at_reissue", "C11_brokerclients_inv",
-            "C11_no_anomaly", "C11_operation_request", "C11_clients_open"]
+            "C11_no_anomaly", "C11_operation_request", "C11_clients_open", "C11_drop_and_resend", "C11_bound_frame",
+            "C11_timer_at_make_request"]
 WHICH = ("C11",)
 
 CFG0 = {"timeout": 5000, "dot": True, "mode": 0, "corr0": 0, "hosts": [1]}
